@@ -7,6 +7,9 @@ and again from a later start - and compares every column with the model, entry b
 from sweetpea._internal.primitive import DerivedFactor
 from sweetpea._internal.sampling_strategy.random import UCSolutionEnumerator
 
+import signal
+
+from . import i12_oracle as O
 from . import oracles_design as OD
 from .designs import quiet
 from .i10_implied import _lfactor
@@ -30,11 +33,20 @@ def corr_fill(ctx):
         if any(str(f.name) not in by_name for f in blk.design):
             ctx.count("I9f.skip-desugared")
             continue
+        # building the enumerator counts the candidate space, which can take minutes for some shapes: wall-clock limit
+        old_handler = signal.signal(signal.SIGALRM, O._alarm)
+        signal.alarm(5)
         try:
             enum = quiet(UCSolutionEnumerator, blk)
-        except Exception as e:  # noqa: BLE001  (open findings F18 / F32: the enumerator cannot be built)
+        except O.CallTimeout:
+            ctx.count("I9f.enumerator-slow")
+            continue
+        except Exception as e:  # noqa: BLE001  (open finding F18: the enumerator cannot be built)
             ctx.count("I9f.enumerator-raises:" + type(e).__name__)
             continue
+        finally:
+            signal.alarm(0)
+            signal.signal(signal.SIGALRM, old_handler)
         n = blk.trials_per_sample()
         for _ in range(2):
             run = {}
